@@ -62,6 +62,20 @@ func wktTokens(s string, in *wkbIntern) ([]string, bool) {
 
 // finite floats over the full range, forcing exponent forms and 17-digit mantissas
 func wktFloat(c *ctx) float64 {
+	if c.rng.Intn(12) == 0 {
+		// the neighbours of short decimals (what decimal arithmetic leaves behind: 0.1 + 0.02 = 0.12000000000000001): a
+		// decimal with up to seven places between 1e-4 and 1e6, and the float64 next to it on either side
+		places := c.rng.Intn(8)
+		d := math.Round(c.rng.Float64()*math.Pow(10, float64(c.rng.Intn(7)))*math.Pow(10, float64(places))) / math.Pow(10, float64(places))
+		d = math.Copysign(d, float64(1-2*c.rng.Intn(2)))
+		switch c.rng.Intn(3) {
+		case 0:
+			return math.Nextafter(d, math.Inf(1))
+		case 1:
+			return math.Nextafter(d, math.Inf(-1))
+		}
+		return d
+	}
 	switch c.rng.Intn(11) {
 	case 10:
 		// values that are exactly representable in single precision (coordinates widened from float32): their shortest
@@ -172,7 +186,24 @@ func c04Typed(text string) []int {
 var c04PrevBytes []byte
 var c04PrevText string
 
+// texts the parsers refuse, parsed now and then before a valid one: what a refused text left behind must not reach the next
+var c04Refused = []string{
+	"GEOMETRYCOLLECTION(POINT(9 9),POINT(1 2 3),POINT(8 8))", "GEOMETRYCOLLECTION(LINESTRING(1 1,2 2),POLYGON((0 0,1 x)),POINT(7 7))",
+	"MULTIPOLYGON(((0 0,1 0,1 1,0 0)),((5 5,6 5,6 6,5)))", "LINESTRING(1 2,3)", "POLYGON((0 0,1 1,2 2", "MULTIPOINT((1 2),(3))",
+	"GEOMETRYCOLLECTION(GEOMETRYCOLLECTION(POINT(4 4),POINT(bad)),POINT(5 5))", "POINT(1 2) trailing", "",
+}
+var c04Calls int
+
 func c04Event(c *ctx, g orb.Geometry) (string, *wkbIntern, map[string]interface{}) {
+	c04Calls++
+	if c04Calls%3 == 0 {
+		guard(func() {
+			t := c04Refused[(c04Calls/3)%len(c04Refused)]
+			wkt.Unmarshal(t)
+			wkt.UnmarshalCollection(t)
+			wkt.UnmarshalMultiPolygon(t)
+		})
+	}
 	in := newWkbIntern()
 	gm, _ := encGeom(g, in.fn())
 	e := map[string]interface{}{"k": "wkt", "g": gm, "err": 0, "typed": []int{}}
